@@ -1,4 +1,9 @@
-/- Prototype: OntologyStore cache protocol (atomic-rename variant) as a small-step system. -/
+/-
+`OntologyStore` cache protocol (src/hpotk/store/_api.py) as a small-step transition system at I/O-boundary granularity:
+any number of loader threads / processes, fault choices at every boundary, kills, clears.  The loader steps follow
+`_impl_load_ontology` as it is in the working tree (unique temp file in the target directory, `os.replace`, clean-up on error).
+Core Lean only.
+-/
 namespace Hpv.Store
 
 inductive Ty | hpo | maxo | mondo deriving DecidableEq, Repr
@@ -11,9 +16,9 @@ structure Key where
 deriving DecidableEq, Repr
 
 inductive Path
-  | cache (k : Key)
-  | tmp (ty : Ty) (owner : Nat)
-  | foreign (ty : Option Ty) (name : Nat)
+  | cache (k : Key)                      -- `<store>/<TY>/<ty>.<release>.json`
+  | tmp (ty : Ty) (owner : Nat)          -- `tempfile.mkstemp(dir=<store>/<TY>)`: unique per owner
+  | foreign (ty : Option Ty) (name : Nat) -- anything else below the store dir
 deriving DecidableEq, Repr
 
 def Path.under (p : Path) (t : Ty) : Bool :=
@@ -24,16 +29,18 @@ def Path.under (p : Path) (t : Ty) : Bool :=
   | .foreign none _ => false
 
 inductive PC
+  | idle
   | start (ty : Ty) (rel : Option Nat)
   | resolved (k : Key)
-  | checked (k : Key)
-  | dirMade (k : Key)
-  | fetched (k : Key) (resp : Bytes)
-  | haveBytes (k : Key) (b : Bytes)
-  | tmpOpen (k : Key) (b : Bytes)
-  | tmpClosed (k : Key)
-  | hit (k : Key)
-  | loaded (k : Key) (content : Bytes)
+  | checked (k : Key)                    -- `os.path.isfile` said False
+  | dirMade (k : Key)                    -- `os.makedirs(..., exist_ok=True)`
+  | tmpMade (k : Key)                    -- `tempfile.mkstemp` created the (empty) temp file
+  | fetched (k : Key) (resp : Bytes)     -- `fetch_ontology` returned a response
+  | haveBytes (k : Key) (b : Bytes)      -- `response.read()` returned
+  | written (k : Key)                    -- temp file written and closed
+  | hit (k : Key)                        -- the cache path holds the file (found, or just renamed into place)
+  | loaded (k : Key) (content : Bytes)   -- `loader_func(fpath)` read `content`
+  | cleanup (k : Key)                    -- `except BaseException:` about to remove the temp file
   | failed
   | dead
 deriving DecidableEq, Repr
@@ -43,6 +50,7 @@ inductive Choice | ok | fail | failAfter (n : Nat) | die deriving DecidableEq, R
 inductive Ev
   | isfile (t : Nat) (k : Key) (present : Bool)
   | fetch (t : Nat) (k : Key)
+  | stored (t : Nat) (k : Key)
 deriving DecidableEq, Repr
 
 structure World where
@@ -55,25 +63,30 @@ structure World where
 
 def upd {α β} [DecidableEq α] (f : α → β) (a : α) (b : β) : α → β := fun x => if x = a then b else f x
 
+/-- `max(tags, default=None)` -/
 def maxTag : List Nat → Option Nat
   | [] => none
   | x :: xs => some (xs.foldl max x)
 
 def World.goto (w : World) (t : Nat) (pc : PC) : World := { w with pcs := upd w.pcs t pc }
 
-/-- One step of loader thread `t` under fault choice `c`. -/
+/-- One step of loader `t` under fault choice `c`. -/
 def stepLoader (w : World) (t : Nat) (c : Choice) : World :=
   let go (pc : PC) (w : World) : World := w.goto t pc
   match c with
-  | .die => go .dead w
+  | .die =>
+    match w.pcs t with
+    | .idle => w
+    | _ => go .dead w
   | _ =>
   match w.pcs t with
+  | .idle => w
   | .start ty none =>
     match c with
     | .ok => match maxTag (w.tags ty) with
       | some r => go (.resolved ⟨ty, r⟩) w
-      | none => go .failed w
-    | _ => go .failed w
+      | none => go .failed w                    -- ValueError: unable to retrieve the latest tag
+    | _ => go .failed w                         -- the release service raised
   | .start ty (some r) => go (.resolved ⟨ty, r⟩) w
   | .resolved k =>
     let present := (w.files (.cache k)).isSome
@@ -81,41 +94,45 @@ def stepLoader (w : World) (t : Nat) (c : Choice) : World :=
     if present then go (.hit k) w else go (.checked k) w
   | .checked k => go (.dirMade k) { w with dirs := upd w.dirs k.ty true }
   | .dirMade k =>
+    if w.dirs k.ty then go (.tmpMade k) { w with files := upd w.files (.tmp k.ty t) (some []) }
+    else go .failed w                           -- the directory vanished (concurrent clear)
+  | .tmpMade k =>
+    let w := { w with log := w.log ++ [.fetch t k] }
     match c with
     | .ok =>
-      let w := { w with log := w.log ++ [.fetch t k] }
       match w.remote k with
       | some b => go (.fetched k b) w
-      | none => go .failed w
-    | _ => go .failed { w with log := w.log ++ [.fetch t k] }
+      | none => go (.cleanup k) w               -- unknown release: the remote service raises
+    | _ => go (.cleanup k) w                    -- fetch raises
   | .fetched k b =>
     match c with
     | .ok => go (.haveBytes k b) w
-    | _ => go .failed w
+    | _ => go (.cleanup k) w                    -- `response.read()` raises
   | .haveBytes k b =>
-    if w.dirs k.ty then go (.tmpOpen k b) { w with files := upd w.files (.tmp k.ty t) (some []) }
-    else go .failed w
-  | .tmpOpen k b =>
+    let put (content : Bytes) (w : World) : World :=
+      if (w.files (.tmp k.ty t)).isSome then { w with files := upd w.files (.tmp k.ty t) (some content) } else w
     match c with
-    | .ok => go (.tmpClosed k) { w with files := upd w.files (.tmp k.ty t) (some b) }
-    | .failAfter n => go .failed { w with files := upd w.files (.tmp k.ty t) (some (b.take n)) }
-    | _ => go .failed w
-  | .tmpClosed k =>
+    | .ok => go (.written k) (put b w)
+    | .failAfter n => go (.cleanup k) (put (b.take n) w)     -- the write fails after `n` bytes
+    | _ => go (.cleanup k) w
+  | .written k =>
     match w.files (.tmp k.ty t) with
-    | some content =>
-      go (.hit k) { w with files := upd (upd w.files (.cache k) (some content)) (.tmp k.ty t) none }
-    | none => go .failed w
+    | some content =>                            -- `os.replace(tmp, fpath)`: atomic
+      go (.hit k) { w with files := upd (upd w.files (.cache k) (some content)) (.tmp k.ty t) none,
+                           log := w.log ++ [.stored t k] }
+    | none => go (.cleanup k) w                  -- the temp file vanished (concurrent clear)
   | .hit k =>
     match w.files (.cache k) with
     | some content => go (.loaded k content) w
-    | none => go .failed w
+    | none => go .failed w                       -- cleared in between
+  | .cleanup k => go .failed { w with files := upd w.files (.tmp k.ty t) none }
   | .loaded _ _ => w
   | .failed => w
   | .dead => w
 
 inductive Action
   | loader (t : Nat) (c : Choice)
-  | spawn (t : Nat) (ty : Ty) (rel : Option Nat)      -- thread t starts a (new) load
+  | spawn (t : Nat) (ty : Ty) (rel : Option Nat)      -- thread / process `t` starts a (new) load
   | clearTy (ty : Ty)
   | clearAll
 deriving Repr
@@ -124,11 +141,19 @@ def step (w : World) : Action → World
   | .loader t c => stepLoader w t c
   | .spawn t ty rel =>
     match w.pcs t with
-    | .loaded _ _ | .failed | .dead => { w with pcs := upd w.pcs t (.start ty rel) }
+    | .idle | .loaded _ _ | .failed => { w with pcs := upd w.pcs t (.start ty rel) }
     | _ => w
   | .clearTy ty => { w with files := fun p => if p.under ty then none else w.files p, dirs := upd w.dirs ty false }
   | .clearAll => { w with files := fun _ => none, dirs := fun _ => false }
 
 def run (w : World) (as : List Action) : World := as.foldl step w
+
+/-- an empty store in front of a remote -/
+def World.init (remote : Key → Option Bytes) (tags : Ty → List Nat) : World :=
+  ⟨fun _ => none, fun _ => false, remote, tags, fun _ => .idle, []⟩
+
+/-- a load that nothing disturbs: spawn, then enough fault-free steps -/
+def healthyLoad (t : Nat) (ty : Ty) (rel : Option Nat) : List Action :=
+  .spawn t ty rel :: List.replicate 10 (.loader t .ok)
 
 end Hpv.Store
